@@ -28,7 +28,8 @@ out = ["# Seeded changes", "",
        "| seed | breaks | change | needs, to manifest | confirmed | our checks | strengthening done because of it |", "|---|---|---|---|---|---|---|"]
 for r in rows:
     out.append("| " + " | ".join(str(x).replace("|", "/").replace("\n", " ") for x in r) + " |")
-caught = sum(1 for r in rows if "caught" in r[5])
-out += ["", "%d changes, %d caught by a check of the property they break." % (len(rows), caught)]
+own = sum(1 for r in rows if ("%s quick: caught" % r[1]) in r[5] or ("%s thorough: caught" % r[1]) in r[5])
+other = sum(1 for r in rows if "caught" in r[5]) - own
+out += ["", "%d changes: %d caught by the quick check of the property they were written against, %d more only by the check of a neighbouring property (named in the row), %d caught by none." % (len(rows), own, other, len(rows) - own - other)]
 open(os.path.join(ROOT, "seeded", "INDEX.md"), "w").write("\n".join(out) + "\n")
 print("\n".join(out[-3:]))
